@@ -308,6 +308,22 @@ class LockAnalysis:
                     for m in methods.values():
                         if m.name == n.attr and fi.cls in self.family:
                             sites[m.key].append((fi, None))   # escaping reference: unknown context
+        # call sites inside private helpers that nothing in the package calls or references (kept for compatibility, dead)
+        # say nothing about the context a helper is entered in
+        def _private(m):
+            return m.name.startswith("_") and not m.name.startswith("__")
+        dead = set()
+        grew = True
+        while grew:
+            grew = False
+            for k, m in methods.items():
+                if k not in dead and _private(m) and all(fi.key in dead for fi, _ in sites[k]):
+                    dead.add(k)
+                    grew = True
+        self.dead_private = dead
+        for k in sites:
+            if k not in dead:
+                sites[k] = [(fi, c) for fi, c in sites[k] if fi.key not in dead]
         held = set()
         changed = True
         while changed:
